@@ -13,6 +13,8 @@ def V(id, props, *edits):
 
 
 RB = "lerax/buffer/rollout.py"
+PA = "lerax/policy/actor.py"
+DMC = "lerax/distribution/multi_categorical.py"
 RPB = "lerax/buffer/replay.py"
 ONP = "lerax/algorithm/on_policy.py"
 OFP = "lerax/algorithm/off_policy.py"
@@ -51,6 +53,10 @@ ENTRIES = [
     M("G-gym-seed-only-first", "C11", "C11.5", ("lerax/compatibility/gym.py", "            seed_int = int(seed_arr)\n            obs, _ = self.env.reset(*args, seed=seed_int, **kwargs)", "            seed_int = int(seed_arr) if self.env.unwrapped._np_random is None else None\n            obs, _ = self.env.reset(*args, seed=seed_int, **kwargs)")),
     M("G-gym-seed-constant", "C11", "C11.5", ("lerax/compatibility/gym.py", "            seed = jr.randint(key, (), 0, jnp.iinfo(jnp.int32).max)", "            seed = jnp.asarray(0, dtype=int)")),
     V("G-v-gym-seed-inline", "C11", ("lerax/compatibility/gym.py", "            seed_int = int(seed_arr)\n            obs, _ = self.env.reset(*args, seed=seed_int, **kwargs)", "            obs, _ = self.env.reset(*args, seed=int(seed_arr), **kwargs)")),
+    M("F-multidiscrete-head-field-name", "C16", "C16.3", (PA, "        self.mapping = eqx.nn.Linear(latent_dim, sum(action_space.nvec), key=key)", "        self.mappings = eqx.nn.Linear(latent_dim, sum(action_space.nvec), key=key)")),
+    M("F-mc-split-traced-indices", ["C15", "C16"], ["C15.2", "C16.6"], (DMC, "        split_idx = [sum(action_dims[: i + 1]) for i in range(len(action_dims) - 1)]", "        split_idx = jnp.cumsum(jnp.asarray(action_dims[:-1]))")),
+    V("F-v-mc-split-numpy", "C15", (DMC, "        split_idx = [sum(action_dims[: i + 1]) for i in range(len(action_dims) - 1)]", "        import numpy as np\n        split_idx = np.cumsum(action_dims[:-1])")),
+    M("F-box-space-field-dropped", "C14", "C14.4", ("lerax/space/discrete.py", "        self.n = ", "        self.m = ")),
     M("C03-disc-nomask", "C03", "C03.3", (RB, "discounts = gamma * gae_lambda * next_non_terminals", "discounts = gamma * gae_lambda")),
     M("C03-boot-nomask", "C03", "C03.3", (RB, "gamma * next_values * next_non_terminals - self.values", "gamma * next_values - self.values")),
     M("C03-forward", "C03", "C03.1", (RB, "(deltas, discounts), reverse=True", "(deltas, discounts), reverse=False")),
@@ -358,10 +364,8 @@ ENTRIES += [
 DB = "lerax/distribution/base_distribution.py"
 DC = "lerax/distribution/categorical.py"
 DBE = "lerax/distribution/bernoulli.py"
-DMC = "lerax/distribution/multi_categorical.py"
 DSN = "lerax/distribution/squashed_normal.py"
 DSM = "lerax/distribution/squashed_multivariate_normal.py"
-PA = "lerax/policy/actor.py"
 PQ = "lerax/policy/q/base_q.py"
 PS = "lerax/policy/sac/mlp.py"
 
@@ -382,7 +386,7 @@ ENTRIES += [
     M("C15-mc-value0", "C15", "C15.2", (DMC, "d.log_prob(value_arr[..., i]) for i, d in enumerate(self.distribution)", "d.log_prob(value_arr[..., 0]) for i, d in enumerate(self.distribution)")),
     M("C15-mc-entropy-first", "C15", "C15.2", (DMC, "        return jnp.sum(jnp.stack(ents, axis=-1), axis=-1)", "        return jnp.stack(ents, axis=-1)[..., 0]")),
     M("C15-mc-salp-two-calls", "C15", "C15.2", (DMC, "        samples = jnp.stack(tuple(p[0] for p in pairs), axis=-1)", "        samples = jnp.stack(tuple(d.sample(k) for d, k in zip(self.distribution, keys)), axis=-1)")),
-    M("C15-mc-split-full", "C15", "C15.2", (DMC, "split_idx = jnp.cumsum(jnp.asarray(action_dims[:-1]))", "split_idx = jnp.cumsum(jnp.asarray(action_dims))")),
+    M("C15-mc-split-full", "C15", "C15.2", (DMC, "split_idx = [sum(action_dims[: i + 1]) for i in range(len(action_dims) - 1)]", "split_idx = [sum(action_dims[: i + 1]) for i in range(len(action_dims))]")),
     M("C15-mc-split-axis0", "C15", "C15.2", (DMC, "pieces = tuple(jnp.split(arr, split_idx, axis=-1))", "pieces = tuple(jnp.split(arr, split_idx, axis=0))")),
     M("C15-scale-sign", "C15", "C15.3", (DSN, "affine = bijectors.ScalarAffine(scale=(high - low), shift=low)", "affine = bijectors.ScalarAffine(scale=(low - high), shift=low)")),
     M("C15-chain-order", "C15", "C15.3", (DSN, "bijector = bijectors.Chain((affine, sigmoid))", "bijector = bijectors.Chain((sigmoid, affine))")),
